@@ -44,7 +44,6 @@ def classify(case):
 
 SPEC = dict(
     prop="C24",
-    disabled="under construction",
     gens=[dict(name="NamingRegexes", cmd=["go", "run", "-C", "translators", ".", "namingregexes"],
                what="regex literals of snap/naming/validate.go and of sc_security_tag_validate (snap.c), length limits of "
                     "validate.go, snap.h, snap.c, bootstrap.c")],
